@@ -10,6 +10,7 @@ import (
 	"fmt"
 	"strings"
 	"sync"
+	"sync/atomic"
 	"time"
 
 	tcpip "github.com/brewlin/net-protocol/protocol"
@@ -20,7 +21,7 @@ import (
 
 // Scenario is one transfer/close choreography.
 type Scenario struct {
-	Kind string `json:"kind"` // oneway | simultaneous | halfclose | zerowindow
+	Kind string `json:"kind"` // oneway | simultaneous | halfclose | zerowindow | idle
 	AtoB int    `json:"a_to_b"`
 	BtoA int    `json:"b_to_a"`
 }
@@ -66,6 +67,7 @@ type side struct {
 	werr     *tcpip.Error
 	wrote    int
 	shutdown bool
+	prog     int64 // bytes read + written so far (atomic; read by the watchdog)
 }
 
 // Result of one run.
@@ -86,6 +88,7 @@ func (s *side) writeAll(data []byte, stop <-chan struct{}) {
 	for len(rem) > 0 {
 		n, err, ok := s.sock.Write(rem, 2*time.Second)
 		s.wrote += n
+		atomic.AddInt64(&s.prog, int64(n))
 		rem = rem[n:]
 		if err != nil {
 			s.werr = err
@@ -127,6 +130,7 @@ func (s *side) readAll(stop <-chan struct{}) {
 			return
 		}
 		s.got = append(s.got, v...)
+		atomic.AddInt64(&s.prog, int64(len(v)))
 	}
 }
 
@@ -191,6 +195,12 @@ func Run(c Case) Result {
 		run(func() { A.writeAll(wantAB, stop) })
 		run(func() { B.readAll(stop); B.writeAll(wantBA, stop) })
 		run(func() { A.readAll(stop) })
+	case "idle":
+		// the established connection sits idle (with keep-alive configured this is when the
+		// probes run), then behaves like "oneway"
+		run(func() { time.Sleep(120 * time.Millisecond); A.writeAll(wantAB, stop) })
+		run(func() { B.readAll(stop); B.writeAll(wantBA, stop) })
+		run(func() { A.readAll(stop) })
 	case "halfclose":
 		// A half-closes at once (nothing to send beyond AtoB), B answers with more data afterwards.
 		run(func() { A.writeAll(wantAB, stop) })
@@ -231,13 +241,30 @@ func Run(c Case) Result {
 	stallState, stallErr := "", false
 	finished := make(chan struct{})
 	go func() { wg.Wait(); close(finished) }()
-	// watchdog on wire quiescence
+	// watchdog on wire quiescence, and on application-level progress: a connection on which
+	// only empty segments (window probes and their answers) travel while nothing is delivered
+	// or accepted any more has gone quiet just the same
+	progress := func() int64 { return atomic.LoadInt64(&A.prog) + atomic.LoadInt64(&B.prog) }
+	lastProgress, lastProgressAt := progress(), time.Now()
 	for waiting := true; waiting; {
 		select {
 		case <-finished:
 			waiting = false
 		case <-time.After(100 * time.Millisecond):
-			if p.W.SilentFor() > StallQuiet && !p.W.PendingFaults() {
+			if n := progress(); n != lastProgress {
+				lastProgress, lastProgressAt = n, time.Now()
+			}
+			noProgress := time.Since(lastProgressAt) > StallQuiet
+			if noProgress {
+				// only counts if the wire carried nothing but empty segments meanwhile
+				for _, e := range p.W.Events() {
+					if e.T.After(lastProgressAt) && e.Pkt.L4Kind == "tcp" && (len(e.Pkt.Payload) > 0 || e.Pkt.Flags&(codec.SYN|codec.FIN|codec.RST) != 0) {
+						noProgress = false
+						lastProgressAt = e.T
+					}
+				}
+			}
+			if (p.W.SilentFor() > StallQuiet || noProgress) && !p.W.PendingFaults() {
 				res.Stalled = true
 				res.Events = p.W.Events()
 				stallState = fmt.Sprintf("A: got %d/%d eof=%v wrote %d err=%v/%v; B: got %d/%d eof=%v wrote %d err=%v/%v", len(A.got), len(A.want), A.eof, A.wrote, A.rerr, A.werr, len(B.got), len(B.want), B.eof, B.wrote, B.rerr, B.werr)
@@ -280,6 +307,21 @@ func Run(c Case) Result {
 		}
 		if s.eof && len(s.got) != len(s.want) {
 			res.Fail = evid.Failf("eof-early", "%s got end of stream after %d of %d bytes written before the peer's shutdown\n%s", s.name, len(s.got), len(s.want), trace())
+			return res
+		}
+	}
+	if anyErr {
+		// an endpoint may give up when packets are lost, but not on a network that delivered
+		// every packet once, unaltered and in order
+		faulted := false
+		for _, e := range res.Events {
+			if e.Action != "" {
+				faulted = true
+			}
+		}
+		if !faulted {
+			res.Fail = evid.Failf("error-without-fault", "an endpoint reported an error (A read=%v write=%v, B read=%v write=%v) although the network delivered every packet (A got %d/%d eof=%v, B got %d/%d eof=%v)\n%s",
+				A.rerr, A.werr, B.rerr, B.werr, len(A.got), len(A.want), A.eof, len(B.got), len(B.want), B.eof, trace())
 			return res
 		}
 	}
